@@ -1,9 +1,57 @@
-"""C03: look-ahead sets are exactly LALR(1); a warning appears iff an unresolved conflict exists."""
-from vlib import Inconclusive
+"""C03: look-ahead sets are exactly LALR(1); a warning appears iff an unresolved conflict exists.
+Main check: recorded look-ahead sets / warnings vs the LR(1)-merge definition (ConfLALR.tla).
+Supporting: the real lalr.Digraph on enumerated relations vs the closure equation (ConfDigraph.tla) and the
+PlusCal model of Digraph/Traverse verified against the same equation (Digraph.tla)."""
+import glob
+import json
+import os
+
 import conf
+from vlib import Inconclusive, add_tlc_cov, log, require_clean, run_tlc, run_tlc_shards, stage_spec
+
+
+def digraph_part(ctx):
+    out = ctx.sub("dig")
+    r = ctx.vh(["digobs", "-out", out, "-shards", 16, "-seed", ctx.seed, "-maxn", ctx.pick(3, 4), "-nrand", ctx.pick(500, 5000)])
+    log(r.stdout.strip())
+    shards = [s for s in sorted(glob.glob(os.path.join(out, "dig-*.json"))) if "summary" not in s]
+    results = run_tlc_shards(ctx, "ConfDigraph.tla", "ConfDigraph.cfg", shards, timeout=ctx.pick(600, 3000), extra=["-continue"])
+    require_clean(results)
+    add_tlc_cov(ctx, results, "real lalr.Digraph vs closure equation (ConfDigraph.tla)")
+    summ = json.load(open(os.path.join(out, "dig-summary.json")))
+    ctx.cov["digraph_graphs"] = summ
+    ctx.cov["evaluations"] += summ["exhaustive"] + summ["random"]
+    for sf, res in results:
+        if not res.violations:
+            continue
+        obs = json.load(open(sf))
+        for name, vars_, txt in res.violations[:2]:
+            o = obs[int(vars_.get("m", "1")) - 1]
+            key = "digraph:%s:%s:%s" % (name, json.dumps(o["rel"]), json.dumps(o["fp"]))
+            d = ctx.replay_dir(key)
+            json.dump({"property": "C03", "kind": "digraph", "invariant": name, "obs": o}, open(os.path.join(d, "meta.json"), "w"))
+            ctx.violation(key, d, "lalr.Digraph on relation %s with F' %s returned %s (panic=%s): violates %s" % (
+                o["rel"], o["fp"], o["f"], o["panic"], name))
+    # the algorithm model
+    d = ctx.sub("digmodel")
+    stage_spec(d)
+    with open(os.path.join(d, "Digraph_run.cfg"), "w") as f:
+        f.write("CONSTANTS Nodes = {1, 2, 3}\ndefaultInitValue = 0\nUniv = {1, 2}\nFixedFP = %s\nSPECIFICATION Spec\n"
+                "INVARIANT DigraphCorrect\nINVARIANT PartialSound\nINVARIANT StackDistinct\nPROPERTY Terminates\nCHECK_DEADLOCK FALSE\n"
+                % ctx.pick("TRUE", "FALSE"))
+    res = run_tlc(d, "Digraph.tla", "Digraph_run.cfg", timeout=ctx.pick(600, 3300), heap="8g", workers=ctx.pick(8, 16))
+    if res.errors or res.violations:
+        raise Inconclusive("Digraph.tla model check failed: %s %s" % (res.errors, [v[0] for v in res.violations]))
+    add_tlc_cov(ctx, [("digraph-model", res)], "PlusCal model of Digraph/Traverse, all relations on 3 nodes (Digraph.tla)")
 
 
 def run(ctx, replay):
+    kind = json.load(open(os.path.join(replay, "meta.json")))["kind"] if replay else None
+    if kind == "digraph":
+        raise Inconclusive("digraph findings are replayed by `harness digobs`; see meta.json")
+    if kind is None:
+        digraph_part(ctx)
+
     def guards(stats, summary):
         if stats.get("ok", 0) < ctx.pick(300, 5000) or stats.get("conflicted", 0) < ctx.pick(30, 500):
             raise Inconclusive("vacuity: %s" % stats)
